@@ -16,7 +16,7 @@ DIHEDRAL = ["U", "L", "T", "R", "C", "I"]
 
 def xf_dims(t, w, h):
     c = t[0]
-    if c in "ULINKX": return w, h
+    if c in "ULINKXY": return w, h
     if c in "TRC": return h, w
     if c == "S": sx, sy = map(int, t[1:].split(",")); return (w + sx - 1) // sx, (h + sy - 1) // sy
     if c == "B": a = list(map(int, t[1:].split(","))); return a[2], a[3]
@@ -45,7 +45,7 @@ def rand_ops(r, kind, W, H, depth, allow_empty_width):
     if chan and (w > 0 and h > 0 or allow_empty_width): ts.append(chan)
     elif not any(t[0] == "N" for t in ts):
         if nch != 0 and r.chance(1, 6) and (w > 0 and h > 0 or allow_empty_width or nch < 0): ts.append("K%d" % r.range(0, 2)) if abs(nch) == 3 else None
-        elif canx and r.chance(1, 6): ts.append("X")
+        elif canx and r.chance(1, 6): ts.append(r.choice(["X", "X", "Y"]))
     return ("/".join(ts) if ts else "-"), w, h
 
 def op_line(r, kind, W, H, ops, w, h, pad=None):
@@ -106,8 +106,9 @@ def nontrivial(op):
 
 ASSUME = [
     "ptrdiff_t arithmetic does not overflow (coordinates, steps and offsets are unbounded Int in the model)",
-    "the dereference adaptor of color_converted_view / kth_channel_view on non-basic views is observed (value = f(source pixel at the mapped coordinates)), "
-    "its composition law is definitional in the model",
+    "the dereference adaptor of color_converted_view / kth_channel_view on non-basic views is observed (value = f(source pixel at the mapped coordinates)); "
+    "C02_deref_adaptor states its composition law over a model in which the factories keep the dereference function (add_deref)",
+    "where channel n of a pixel lives (n*sizeof(channel) inside an interleaved pixel, plane n of a planar one) is C++ object layout: hand-modelled (chanAddr), observed",
     "planar views: each plane is addressed with the same offsets (observed through the write test on all planes)",
     "kth_channel_view of a packed_pixel view does not compile and is therefore outside the observed set",
 ]
